@@ -65,6 +65,20 @@ class Result:
         self.hooks = {}           # coverage counter name -> total hits in the code under test
 
 
+def _nonzero(v):
+    if isinstance(v, bool):
+        return v
+    if isinstance(v, int):
+        return v != 0
+    if isinstance(v, str):
+        return len(v) > 0
+    if isinstance(v, list):
+        return any(_nonzero(x) for x in v)
+    if isinstance(v, dict):
+        return any(_nonzero(x) for x in v.values())
+    return False
+
+
 def outcome_class(ev, scen_keys):
     """Coarse outcome signature of an event: which calls panicked, and for each
     result its shape (flag value, Some/None) - used for coverage accounting."""
@@ -106,6 +120,15 @@ def run_pipeline(prop, group_scen, tier, seed, res, bins_release=False, trace_sp
         with open(ep) as fh:
             for s, line in zip(scens, fh):
                 all_events.append((json.loads(line), set(s.keys())))
+    # distinct non-trivial cases: distinct scenario lines that have at least one non-zero / non-empty operand
+    # (an event whose inputs are all zero or empty exercises only the degenerate paths)
+    import hashlib as _hl
+    for ev, keys in all_events:
+        scn = {k: ev[k] for k in keys if k in ev and k != "w"}
+        operands = [v for k, v in scn.items() if k not in ("g", "op", "bits", "bits2", "t", "tr", "fl", "al", "dir", "fill", "seed", "k", "entry", "form")]
+        nontrivial = (not operands) or any(_nonzero(v) for v in operands)
+        if nontrivial:
+            res.distinct.add(_hl.md5(json.dumps(scn, sort_keys=True).encode()).digest())
     # negative controls: deterministic sample, one corrupted field each
     stream = []
     neg_every = min(neg_every, max(5, len(all_events) // 150))
@@ -213,8 +236,9 @@ def finish(prop, tier, seed, res, t0, level, rule, assumptions, extra_cov=None, 
         "traces_validated_against_impl": res.shards,
         "samples": res.samples[:6] if res.samples else [{"note": "no events"}],
         "evaluations": res.events,
-        "distinct_nontrivial": nontrivial if nontrivial is not None else res.events,
-        "rule": rule,
+        "distinct_nontrivial": nontrivial if nontrivial is not None else (len(res.distinct) + res.extra.pop("_extra_distinct", 0)),
+        "rule": rule + "; distinct_nontrivial = number of distinct scenario lines (md5 of the input part) with at least one "
+                       "non-zero / non-empty operand, counted by the runner (machine transitions and histories are added for C04)",
         "per_op": res.per_op,
         "negative_controls": {"injected": res.neg_injected, "rejected": res.neg_rejected,
                               "not_rejected_examples": [
